@@ -467,6 +467,86 @@ Theorem heap_root_empty : forall h, hsize h = 0%nat ->
   heap_root h = None /\ heap_extract kf h = Some (h, None).
 Proof. intros. unfold heap_root, heap_extract, heap_is_empty. rewrite H. auto. Qed.
 
+(* ---------------- clear / destroy ---------------- *)
+
+Lemma clear_loop_length : forall n ns i, length (clear_loop n ns i) = length ns.
+Proof. induction n; intros; cbn [clear_loop]; auto. rewrite IHn, length_upd. auto. Qed.
+
+Lemma clear_loop_getn : forall n ns i j, (i + n <= length ns)%nat ->
+  getn (clear_loop n ns i) j = if ((i <=? j) && (j <? i + n))%nat then null_node else getn ns j.
+Proof.
+  induction n; intros ns i j HL; cbn [clear_loop].
+  - destruct (Nat.leb_spec i j), (Nat.ltb_spec j (i + 0)); cbn [andb]; auto; lia.
+  - rewrite IHn by (rewrite length_upd; lia).
+    destruct (Nat.eq_dec j i) as [-> | N].
+    + rewrite getn_upd_eq by lia.
+      destruct (Nat.leb_spec (S i) i), (Nat.ltb_spec i (S i + n)), (Nat.leb_spec i i), (Nat.ltb_spec i (i + S n));
+        cbn [andb]; auto; lia.
+    + rewrite getn_upd_neq by auto.
+      destruct (Nat.leb_spec (S i) j), (Nat.ltb_spec j (S i + n)), (Nat.leb_spec i j), (Nat.ltb_spec j (i + S n));
+        cbn [andb]; auto; lia.
+Qed.
+
+(* clear — WHATEVER the free callbacks are — leaves the valid EMPTY heap of the same capacity (so every
+   theorem above applies to any later use: the next inserts / extracts / removes see exactly what is
+   inserted from then on, nothing of the old content); the nodes handed to the free callbacks are
+   exactly the old entries nodes[1..size], each once, in slot order; the released slots hold NULL *)
+Theorem heap_clear_ok : forall h, heap_ok h ->
+  let '(h', freed) := heap_clear h in
+  heap_ok h' /\ hsize h' = 0%nat /\ hcap h' = hcap h /\ length (nodes h') = length (nodes h) /\
+  contents h' = [] /\ freed = contents h /\
+  (forall j, (1 <= j <= hsize h)%nat -> getn (nodes h') j = null_node) /\
+  heap_root h' = None /\ heap_extract kf h' = Some (h', None).
+Proof.
+  intros h [HL [HS [HC HO]]]. unfold heap_clear.
+  set (h' := mkheap (clear_loop (hsize h) (nodes h) 1) 0 (hcap h)).
+  assert (OK : heap_ok h').
+  { unfold heap_ok, h'. cbn [nodes hsize hcap]. rewrite clear_loop_length.
+    split; [auto | split; [lia | split; [auto |]]]. intros i ?. lia. }
+  assert (LEN : length (nodes h') = length (nodes h)) by (unfold h'; cbn [nodes]; apply clear_loop_length).
+  assert (NUL : forall j, (1 <= j <= hsize h)%nat -> getn (nodes h') j = null_node).
+  { intros j Hj. unfold h'. cbn [nodes]. rewrite clear_loop_getn by lia.
+    destruct (Nat.leb_spec 1 j), (Nat.ltb_spec j (1 + hsize h)); cbn [andb]; auto; lia. }
+  assert (EMP : heap_root h' = None /\ heap_extract kf h' = Some (h', None)) by (apply heap_root_empty; reflexivity).
+  destruct EMP as [E1 E2].
+  split; [exact OK |]. split; [reflexivity |]. split; [reflexivity |]. split; [exact LEN |].
+  split; [reflexivity |]. split; [reflexivity |]. split; [exact NUL |]. split; [exact E1 | exact E2].
+Qed.
+
+(* the free callbacks are a per-call choice (each may be NULL): for EVERY choice the heap that results
+   is the one of the theorems above, and each callback that is passed is handed exactly the key /
+   value of the entry that leaves (remove) / of every entry, once, in slot order (clear); a callback
+   that is not passed is handed nothing *)
+Theorem heap_remove_cb_ok : forall cbk cbv h idx, heap_ok h -> (1 <= idx <= hsize h)%nat ->
+  exists h', heap_remove_cb kf cbk cbv h idx = Some (h', Some (handed cbk cbv (getn (nodes h) idx))) /\
+    heap_remove kf h idx = Some (h', Some (getn (nodes h) idx)) /\
+    heap_ok h' /\ hsize h' = (hsize h - 1)%nat /\ hcap h' = hcap h /\
+    Permutation (contents h) (getn (nodes h) idx :: contents h').
+Proof.
+  intros cbk cbv h idx OK Hi. destruct (heap_remove_ok h idx OK Hi) as [h' [E R]].
+  exists h'. unfold heap_remove_cb. rewrite E. auto.
+Qed.
+
+Theorem heap_remove_cb_outside : forall cbk cbv h idx, (idx = 0 \/ hsize h < idx)%nat ->
+  heap_remove_cb kf cbk cbv h idx = Some (h, None).
+Proof. intros. unfold heap_remove_cb. rewrite heap_remove_outside by auto. reflexivity. Qed.
+
+Theorem heap_clear_cb_ok : forall cbk cbv h, heap_ok h ->
+  fst (heap_clear_cb cbk cbv h) = fst (heap_clear h) /\
+  snd (heap_clear_cb cbk cbv h) = map (handed cbk cbv) (contents h) /\
+  heap_ok (fst (heap_clear_cb cbk cbv h)) /\ hsize (fst (heap_clear_cb cbk cbv h)) = 0%nat /\
+  hcap (fst (heap_clear_cb cbk cbv h)) = hcap h /\ contents (fst (heap_clear_cb cbk cbv h)) = [].
+Proof.
+  intros cbk cbv h OK. pose proof (heap_clear_ok h OK) as C. unfold heap_clear_cb.
+  destruct (heap_clear h) as [h' freed] eqn:E. cbn [fst snd].
+  destruct C as [C1 [C2 [C3 [_ [C5 [C6 _]]]]]]. subst freed.
+  split; [reflexivity |]. split; [reflexivity |]. split; [exact C1 |]. split; [exact C2 |]. split; [exact C3 | exact C5].
+Qed.
+
+(* destroy releases exactly the entries, each once *)
+Theorem heap_destroy_ok : forall h, heap_destroy h = contents h.
+Proof. reflexivity. Qed.
+
 (* find: first node whose key compares equal *)
 Lemma find_loop_spec : forall n ns i data,
   let r := find_loop kf n ns i data in
